@@ -6,6 +6,7 @@ package main
 
 import (
 	"fmt"
+	"strings"
 
 	"golang.org/x/tools/go/ssa"
 )
@@ -246,6 +247,9 @@ func (m *Machine) concretizeInt(v Value, why string) uint64 {
 func (m *Machine) pick(n int, why string) int {
 	if n <= 1 {
 		return 0
+	}
+	if strings.HasPrefix(why, "preempt") || strings.HasPrefix(why, "schedule") || strings.HasPrefix(why, "select") || strings.HasPrefix(why, "map iteration") {
+		m.envPicks++ // decisions the native runtime takes on its own (not forced by replay values)
 	}
 	if m.pos < len(m.prefix) {
 		d := m.prefix[m.pos]
